@@ -131,8 +131,8 @@ def corpus():
         yield from _ins("b", 48)
     add("rejected-calls", h_bad)
 
-    # a bulk insert that raises part-way (few rows, so the count bound is not reached; the
-    # accumulating variant is the finding in corpus/c06_partial_bulk_failure.json)
+    # a bulk insert that raises part-way: its rows are counted by the finally clause (the
+    # accumulating witness of the pre-ec39c3d defect is corpus/c06_partial_bulk_failure.json)
     def h_partial(r):
         yield _create("b")
         yield from _ins("b", 3)
@@ -140,7 +140,7 @@ def corpus():
         yield from _ins("b", 2)
         yield (MS, 0, ("insert_many_bad", "b", (), 0))
         yield (MS, 0, ("insert_many_bad", "nope", (2,), 3))
-        yield from _ins("b", 38)       # 49 pending, 45 counted: the next 6 inserts would cross 50
+        yield from _ins("b", 38)
     add("partial-bulk-failure-small", h_partial)
 
     # age: one write at exactly gap after the flush, then another 1 ms later
@@ -206,8 +206,7 @@ def corpus():
 
 def enabled_corpus_files():
     """corpus/c06_*.json: concrete histories (same format as the replays); only those marked
-    "enabled": true take part in the checks (a witness of an open finding is kept disabled
-    until the orchestrator has fixed /repo or registered the finding)."""
+    "enabled": true take part in the checks."""
     import glob
     import json
     import os
